@@ -120,6 +120,45 @@ CHECK = DCheck("C14", {}, judge, make_program=make_program, need_ref=False,
                nontrivial=lambda run, info: any(":fail:" in e["result"] or ":running:" in e["result"] for e in run["ledger"]))
 
 
+def w_signaller(ch: Choices, info: dict[str, Any]) -> list[Any]:
+    """Engine W share: a peer buffers one to three persistent signals on stage S while it retries - a legitimate
+    concurrent writer of the stage row, landing at seeded instants (also between the retry handler's re-read of
+    the stage and its store).  Progress and retry accounting must not care."""
+    n = 1 + ch.pick("c14.nsig", 3)
+    gaps = [ch.choice("c14.siggap", [0.0, 0.002, 0.01, 0.05, 0.5, 2.0]) for _ in range(n)]
+    info["signals"] = n
+
+    def mk(world: Any) -> Any:
+        def body(wk: Any) -> None:
+            from stabilize.queue.messages import SignalStage
+
+            for i in range(n):
+                world.sched.sleep(gaps[i])
+                for _ in range(200):
+                    if world.sched.stopping:
+                        return
+                    rows = world.hquery("SELECT id, execution_id, status FROM stage_executions WHERE ref_id = 'S'")
+                    if rows and rows[0]["status"] == "RUNNING":
+                        break
+                    if rows and rows[0]["status"] not in ("NOT_STARTED", "RUNNING"):
+                        return
+                    world.sched.sleep(0.003)
+                else:
+                    return
+                with world.as_client("peer-signal"):
+                    world.queue.push(SignalStage(execution_type="PIPELINE", execution_id=rows[0]["execution_id"], stage_id=rows[0]["id"],
+                                                 signal_name=f"n{i}", signal_data={"i": i}, persistent=True))
+                world.fault("signal_buffered_during_retry")
+
+        return body
+
+    return [mk]
+
+
+CHECK.w_share = 0.25
+CHECK.w_extra = w_signaller
+
+
 def _flow_budget(orig):  # noqa: ANN001
     return orig
 
